@@ -159,4 +159,20 @@ PROPS = {
             "body lengths below 2^64 for the supply buffer",
         ],
     ),
+    "C08": dict(
+        coq_targets=["Props/C08.vo"],
+        harness=[dict(pkg="h_agent", bin="c08", cases={"quick": 400, "thorough": 6000},
+                      checkers=["corr", "oracle", "known"], timeout=2400)],
+        allowed_axioms=[],
+        trusted_base=[
+            "keys and values are numbers (harness: i32 keys >= 0 and i32 values); a map is its sorted association list (BTreeMap; the hosted HashMap through its sorted view; its take/drop order is the Recon order of the keys = numeric order for these keys)",
+            "notifications are fed as encoded frames through the real byte channels and decoders; between notifications the harness lets the task run until idle (client) / pumps await_ready + next_event until nothing is ready (hosted)",
+            "hook: swimos_agent feature `verif` re-exports the hosted MapDownlinkFactory / ValueDownlinkFactory",
+        ],
+        assumptions=[
+            "theorems are about legal notification sequences (decidable predicate legal / vlegal); arbitrary sequences are covered by correspondence only (no panic, model = implementation)",
+            "event downlinks are not modelled; decode failures (on_failed) and the stop trigger are not generated",
+            "known finding C08-F1: hosted Drop n with n >= |map| fires on_clear instead of per-entry on_remove; sequences in the decidable class has_whole_drop are excused for the hosted implementation only",
+        ],
+    ),
 }
